@@ -320,6 +320,16 @@ def check_written(netlist, doc, info=None, who='C03'):
     return ['writer model (EdifEmit.emit_file) and composer differ: %s' % (d or 'documents differ')]
 
 
+def check_text(netlist, text, info=None):
+    """as check_written, from the written text"""
+    import edif_canon as ec
+    try:
+        doc = ec.read_sexp(text)
+    except Exception:
+        doc = None
+    return check_written(netlist, doc, info)
+
+
 RT_TEXT = {2: 'the reader model refuses the document the writer model writes',
            3: 'the reader model returns another value than the one written',
            4: 'the document the writer model writes is not its own text (sexp_ok fails)'}
